@@ -149,6 +149,18 @@ func (g *G) AuthzFor(known []ref.Pred, maxFacts, maxRules, maxChecks, maxPolicie
 	if maxChecks >= 2 && g.R.Intn(5) == 0 {
 		a.Checks = append(a.Checks, g.NearDuplicateChecks(pool)...)
 	}
+	if maxRules >= 2 && g.R.Intn(6) == 0 {
+		if nr := g.NearDuplicateRules(pool); len(nr) == 2 {
+			a.Rules = append(a.Rules, nr...)
+			// what they derive decides a check and a policy, so that losing one of the twins shows
+			h := nr[0].Head
+			if g.R.Intn(2) == 0 {
+				a.Checks = append(a.Checks, ref.Check{Queries: []ref.Rule{{Head: ref.Pred{Name: "query"}, Body: []ref.Pred{h, {Name: h.Name, Terms: []ref.Term{ref.Var("other")}}}, Exprs: []ref.Expr{ref.Un("!", ref.Un("()", ref.Bin("==", ref.Leaf(ref.Var("nr")), ref.Leaf(ref.Var("other")))))}}}})
+			} else {
+				a.Policies = append([]ref.Policy{{Allow: g.R.Intn(2) == 0, Queries: []ref.Rule{{Head: ref.Pred{Name: "query"}, Body: []ref.Pred{h}}}}}, a.Policies...)
+			}
+		}
+	}
 	for i := g.R.Intn(maxPolicies + 1); i > 0; i-- {
 		if g.R.Intn(2) == 0 {
 			a.Policies = append(a.Policies, ref.Policy{Allow: g.R.Intn(3) != 0, Queries: []ref.Rule{g.QueryFrom(pool)}})
@@ -213,6 +225,76 @@ func (g *G) NearDuplicateChecks(facts []ref.Pred) []ref.Check {
 				return []ref.Check{mk(e1), mk(e2)}
 			}
 			return []ref.Check{mk(e2), mk(e1)}
+		}
+	}
+	return nil
+}
+
+// RuleOnlyBlock builds a block that carries nothing but rules: each derives what one of the
+// target queries asks for from facts of bodyPool (facts that OTHER blocks state), so that the
+// block derives nothing in its own scope and its rules can only fire if they leak into another.
+func (g *G) RuleOnlyBlock(targets []ref.Rule, bodyPool []ref.Pred) ref.Block {
+	var b ref.Block
+	if len(bodyPool) == 0 {
+		return b
+	}
+	for _, q := range targets {
+		if len(b.Rules) >= 3 {
+			break
+		}
+		for _, a := range q.Body {
+			if g.R.Intn(2) == 0 {
+				continue
+			}
+			f := bodyPool[g.R.Intn(len(bodyPool))]
+			body := ref.Pred{Name: f.Name}
+			for i, t := range f.Terms {
+				if g.R.Intn(2) == 0 {
+					body.Terms = append(body.Terms, ref.Var(fmt.Sprintf("r%d", i)))
+				} else {
+					body.Terms = append(body.Terms, t)
+				}
+			}
+			b.Rules = append(b.Rules, ref.Rule{Head: g.instantiate(a), Body: []ref.Pred{body}})
+		}
+	}
+	return b
+}
+
+// NearDuplicateRules returns two rules that are identical except for the kind
+// of one operator ("<" / ">", starts_with / ends_with).
+func (g *G) NearDuplicateRules(facts []ref.Pred) []ref.Rule {
+	for _, i := range g.R.Perm(len(facts)) {
+		f := facts[i]
+		for j, t := range f.Terms {
+			var ops [2]string
+			var rhs ref.Term
+			switch t.K {
+			case ref.KInt:
+				ops, rhs = [2]string{"<", ">"}, ref.Int(t.I+int64(g.R.Intn(3))-1)
+			case ref.KDate:
+				ops, rhs = [2]string{"<=", ">="}, ref.Date(t.D+uint64(g.R.Intn(2)))
+			case ref.KStr:
+				ops, rhs = [2]string{"prefix", "suffix"}, ref.Str(t.S)
+				if len(t.S) > 1 {
+					rhs = ref.Str(t.S[:1])
+				}
+			default:
+				continue
+			}
+			body := ref.Pred{Name: f.Name}
+			for k, ft := range f.Terms {
+				if k == j {
+					body.Terms = append(body.Terms, ref.Var("nr"))
+				} else {
+					body.Terms = append(body.Terms, ft)
+				}
+			}
+			head := ref.Pred{Name: "twin_of_" + f.Name, Terms: []ref.Term{ref.Var("nr")}}
+			mk := func(op string) ref.Rule {
+				return ref.Rule{Head: head, Body: []ref.Pred{body}, Exprs: []ref.Expr{ref.Bin(op, ref.Leaf(ref.Var("nr")), ref.Leaf(rhs))}}
+			}
+			return []ref.Rule{mk(ops[0]), mk(ops[1])}
 		}
 	}
 	return nil
